@@ -244,8 +244,10 @@ class Session:
     def content(self, w, h, kind=None):
         """pixel content of a w*h area"""
         rng, fmt = self.rng, self.fmt
-        kind = kind or rng.choice(["noise", "few", "runs", "flat", "grad"])
+        kind = kind or getattr(self, "force_content", None) or rng.choice(["noise", "few", "runs", "flat", "grad"])
         n = w * h
+        if kind == "noisefast":      # incompressible, generated in one go
+            return fmt.mask_bytes(rng.randbytes(n * fmt.bytespp))
         if kind == "flat":
             return self.colour() * n
         if kind == "few":
